@@ -401,7 +401,7 @@ theorem best_pos (rules : List Rule) (s : List Ch) (r : Rule) (n : Nat) (h : bes
 
 /-! ### fuel -/
 
-theorem commentStep_nil_iff (s : List Ch) : commentStep s = .eof ↔ s = [] := by
+theorem commentStep_nil_iff (st : Bool) (s : List Ch) : commentStep st s = .eof ↔ s = [] := by
   cases s with
   | nil => simp [commentStep]
   | cons c cs =>
@@ -422,7 +422,7 @@ theorem lexGo_fuel (cfg : Cfg) : ∀ (f f' : Nat) (b : Bool) (n : Nat) (s : List
       cases b with
       | true =>
         simp only [lexGo]
-        cases hc : commentStep s with
+        cases hc : commentStep cfg.expectStops s with
         | eof => rfl
         | close =>
           have hs : s ≠ [] := fun e => by simp [e, commentStep] at hc
@@ -841,7 +841,7 @@ theorem pre_mem (a l : List Ch) (h : pre a l = true) : ∀ c ∈ a, c ∈ l := b
 
 theorem lexGo_true_succ (cfg : Cfg) (f n : Nat) (s : List Ch) :
     lexGo cfg (f + 1) true n s =
-      match commentStep s with
+      match commentStep cfg.expectStops s with
       | .eof => [.commentNotClosed]
       | .close => lexGo cfg f false n (s.drop 2)
       | .expect k => .expect ((s.take k).drop 7) :: lexGo cfg f true (n + 1) (s.drop k)
@@ -867,7 +867,7 @@ theorem lexGo_comment (cfg : Cfg) : ∀ (body after : List Ch) (f n : Nat), body
     cases f with
     | zero => omega
     | succ f =>
-      have hc : commentStep (42 :: 47 :: after) = .close := by
+      have hc : commentStep cfg.expectStops (42 :: 47 :: after) = .close := by
         simp [commentStep, expectAt, expectLit, pre]
       rw [List.nil_append, lexGo_true_succ, hc]
       simp only [List.drop_succ_cons, List.drop_zero]
@@ -879,7 +879,7 @@ theorem lexGo_comment (cfg : Cfg) : ∀ (body after : List Ch) (f n : Nat), body
     | succ f =>
       simp only [bodyOK, Bool.and_eq_true, Bool.not_eq_true'] at hok
       obtain ⟨⟨he, hs⟩, hb⟩ := hok
-      have hc : commentStep (c :: b ++ 42 :: 47 :: after) = .skip := by
+      have hc : commentStep cfg.expectStops (c :: b ++ 42 :: 47 :: after) = .skip := by
         have h1 : expectAt (c :: b ++ 42 :: 47 :: after) = false := by
           cases hp : expectAt (c :: b ++ 42 :: 47 :: after) with
           | false => rfl
@@ -921,7 +921,21 @@ theorem lexGo_skip1 (cfg : Cfg) (x after : List Ch) (r : Rule) (f n : Nat) (hx :
 
 def NonProperty (cfg : Cfg) : Prop := (cfg.mask &&& cfg.bitProperty != 0) = false
 
-theorem lexGo_triv (cfg : Cfg) (hwf : RulesWF cfg.rules = true) (hnp : NonProperty cfg) (t : Triv) (after : List Ch) (f n : Nat)
+/-- a run of newlines is trivia only outside PROPERTY syntax (in a query `\n` is a token) -/
+def TrivAllowed (cfg : Cfg) (t : Triv) : Prop := NonProperty cfg ∨ ∀ nl, t ≠ .newlines nl
+
+def isNewlines : Triv → Bool
+  | .newlines _ => true
+  | _ => false
+
+/-- no separator of the text contains a newline item -/
+def noNewlines (sep0 : List Triv) (items : List Item) : Bool :=
+  sep0.all (fun t => !isNewlines t) && items.all (fun it => it.sep.all (fun t => !isNewlines t))
+
+theorem trivAllowed_of_not_newlines (cfg : Cfg) (t : Triv) (h : isNewlines t = false) : TrivAllowed cfg t := by
+  right; intro nl e; subst e; simp [isNewlines] at h
+
+theorem lexGo_triv (cfg : Cfg) (hwf : RulesWF cfg.rules = true) (t : Triv) (hnp : TrivAllowed cfg t) (after : List Ch) (f n : Nat)
     (hok : t.ok after = true) (hf : (t.text ++ after).length < f) :
     lexGo cfg f false n (t.text ++ after) = lexGo cfg f false n after := by
   cases t with
@@ -931,7 +945,11 @@ theorem lexGo_triv (cfg : Cfg) (hwf : RulesWF cfg.rules = true) (hnp : NonProper
   | newlines nl =>
     simp only [Triv.ok, Bool.and_eq_true] at hok
     refine lexGo_skip1 cfg (10 :: nl) after .newlines f n (by simp) (best_newlines _ hwf nl after hok.1 hok.2) ?_ hf
-    simp only [action]; unfold NonProperty at hnp; simp [hnp]
+    have hnp' : NonProperty cfg := by
+      rcases hnp with h | h
+      · exact h
+      · exact absurd rfl (h nl)
+    simp only [action]; unfold NonProperty at hnp'; simp [hnp']
   | line body =>
     simp only [Triv.ok, Bool.and_eq_true] at hok
     have := best_lineComment _ hwf body after hok.1 hok.2
@@ -959,18 +977,19 @@ theorem lexGo_triv (cfg : Cfg) (hwf : RulesWF cfg.rules = true) (hnp : NonProper
       rw [lexGo_comment cfg body after f n hok (by simp at hf ⊢; omega)]
       exact lexGo_fuel cfg _ _ _ _ _ (by simp at hf; omega) (by simp at hf; omega)
 
-theorem lexGo_sep (cfg : Cfg) (hwf : RulesWF cfg.rules = true) (hnp : NonProperty cfg) :
-    ∀ (ts : List Triv) (after : List Ch) (f n : Nat), sepOK ts after = true → (sepText ts ++ after).length < f →
+theorem lexGo_sep (cfg : Cfg) (hwf : RulesWF cfg.rules = true) :
+    ∀ (ts : List Triv) (_hnp : ∀ t ∈ ts, TrivAllowed cfg t) (after : List Ch) (f n : Nat), sepOK ts after = true →
+      (sepText ts ++ after).length < f →
       lexGo cfg f false n (sepText ts ++ after) = lexGo cfg f false n after := by
   intro ts
   induction ts with
-  | nil => intro after f n _ _; rfl
+  | nil => intro _ after f n _ _; rfl
   | cons t ts ih =>
-    intro after f n hok hf
+    intro hnp after f n hok hf
     simp only [sepOK, Bool.and_eq_true] at hok
     simp only [sepText, List.append_assoc] at hf ⊢
-    rw [lexGo_triv cfg hwf hnp t _ f n hok.1 hf]
-    exact ih after f n hok.2 (by simp at hf ⊢; omega)
+    rw [lexGo_triv cfg hwf t (hnp t (by simp)) _ f n hok.1 hf]
+    exact ih (fun t' ht' => hnp t' (by simp [ht'])) after f n hok.2 (by simp at hf ⊢; omega)
 
 theorem action_snd (cfg : Cfg) (n : Nat) (r : Rule) (w : List Ch) (h : r ≠ .commentOpen) : (action cfg n r w).2 = false := by
   cases r <;> simp [action] at h ⊢
@@ -979,18 +998,19 @@ theorem action_snd (cfg : Cfg) (n : Nat) (r : Rule) (w : List Ch) (h : r ≠ .co
 /-- **The lexer is local.**  If every lexeme of a text, taken alone, is matched completely by its rule, every lexeme
     is `Closed` with respect to the one character that follows it, and the separators are well-formed trivia, then
     lexing the whole text yields exactly the concatenation of the lexemes' tokens. -/
-theorem lex_render (cfg : Cfg) (hwf : RulesWF cfg.rules = true) (hnp : NonProperty cfg) :
-    ∀ (items : List Item) (f n : Nat), Renderable cfg items = true → (renderItems items).length < f →
+theorem lex_render (cfg : Cfg) (hwf : RulesWF cfg.rules = true) :
+    ∀ (items : List Item) (_hnp : ∀ it ∈ items, ∀ t ∈ it.sep, TrivAllowed cfg t) (f n : Nat),
+      Renderable cfg items = true → (renderItems items).length < f →
       lexGo cfg f false n (renderItems items) = tokensOf cfg n items := by
   intro items
   induction items with
   | nil =>
-    intro f n _ hf
+    intro _ f n _ hf
     cases f with
     | zero => simp [renderItems] at hf
     | succ f => simp [renderItems, lexGo, tokensOf]
   | cons it rest ih =>
-    intro f n hr hf
+    intro hnp f n hr hf
     simp only [Renderable, Bool.and_eq_true, beq_iff_eq, bne_iff_ne, ne_eq] at hr
     obtain ⟨⟨⟨⟨hb, hne⟩, hcl⟩, hsep⟩, hrest⟩ := hr
     have hw : it.w ≠ [] := by
@@ -1001,8 +1021,8 @@ theorem lex_render (cfg : Cfg) (hwf : RulesWF cfg.rules = true) (hnp : NonProper
       simp only [renderItems, tokensOf] at hf ⊢
       rw [lexGo_lexeme cfg it.w _ it.r f n hcl hb, action_snd cfg n it.r it.w hne]
       have hlen : 0 < it.w.length := List.length_pos_iff.mpr hw
-      rw [lexGo_sep cfg hwf hnp it.sep (renderItems rest) f _ hsep (by simp at hf ⊢; omega)]
-      rw [ih f _ hrest (by simp at hf ⊢; omega)]
+      rw [lexGo_sep cfg hwf it.sep (hnp it (by simp)) (renderItems rest) f _ hsep (by simp at hf ⊢; omega)]
+      rw [ih (fun it' hit' => hnp it' (by simp [hit'])) f _ hrest (by simp at hf ⊢; omega)]
 
 /-! ### identifiers -/
 
@@ -1196,11 +1216,26 @@ theorem tokensOf_congr (cfg : Cfg) : ∀ (items items' : List Item) (n : Nat),
       rw [ih rest' _ ht]
 
 /-- the whole text: a leading separator, then the items -/
-theorem lex_text (cfg : Cfg) (hwf : RulesWF cfg.rules = true) (hnp : NonProperty cfg) (sep0 : List Triv) (items : List Item)
+theorem lex_text' (cfg : Cfg) (hwf : RulesWF cfg.rules = true) (sep0 : List Triv) (items : List Item)
+    (hnp0 : ∀ t ∈ sep0, TrivAllowed cfg t) (hnp : ∀ it ∈ items, ∀ t ∈ it.sep, TrivAllowed cfg t)
     (h0 : sepOK sep0 (renderItems items) = true) (h : Renderable cfg items = true) :
     lex cfg (sepText sep0 ++ renderItems items) = tokensOf cfg 0 items := by
   unfold lex
-  rw [lexGo_sep cfg hwf hnp sep0 _ _ 0 h0 (by omega)]
-  exact lex_render cfg hwf hnp items _ 0 h (by simp; omega)
+  rw [lexGo_sep cfg hwf sep0 hnp0 _ _ 0 h0 (by omega)]
+  exact lex_render cfg hwf items hnp _ 0 h (by simp; omega)
+
+theorem lex_text (cfg : Cfg) (hwf : RulesWF cfg.rules = true) (hnp : NonProperty cfg) (sep0 : List Triv) (items : List Item)
+    (h0 : sepOK sep0 (renderItems items) = true) (h : Renderable cfg items = true) :
+    lex cfg (sepText sep0 ++ renderItems items) = tokensOf cfg 0 items :=
+  lex_text' cfg hwf sep0 items (fun _ _ => Or.inl hnp) (fun _ _ _ _ => Or.inl hnp) h0 h
+
+/-- the same in any syntax (PROPERTY included) when no separator contains a run of newlines -/
+theorem lex_text_nonl (cfg : Cfg) (hwf : RulesWF cfg.rules = true) (sep0 : List Triv) (items : List Item)
+    (hnl : noNewlines sep0 items = true)
+    (h0 : sepOK sep0 (renderItems items) = true) (h : Renderable cfg items = true) :
+    lex cfg (sepText sep0 ++ renderItems items) = tokensOf cfg 0 items := by
+  simp only [noNewlines, Bool.and_eq_true, List.all_eq_true, Bool.not_eq_true'] at hnl
+  exact lex_text' cfg hwf sep0 items (fun t ht => trivAllowed_of_not_newlines cfg t (hnl.1 t ht))
+    (fun it hit t ht => trivAllowed_of_not_newlines cfg t (hnl.2 it hit t ht)) h0 h
 
 end UtapModel.C09
